@@ -921,6 +921,27 @@ theorem primOK_text : PrimOK .text := by
 
 
 /-- every hand-written codec marked `proved` has its round-trip lemma -/
+theorem primOK_addrWc : PrimOK .addrWc := by
+  intro v b b' _ hd he
+  unfold Prim.inDom at hd
+  split at hd <;> try contradiction
+  rename_i wc addr _
+  simp only [Bool.and_eq_true, decide_eq_true_eq, beq_iff_eq] at hd
+  obtain ⟨⟨hlo, hhi⟩, hlen⟩ := hd
+  simp only [Prim.enc, Builder.writeInt, Builder.writeBytes] at he
+  obtain ⟨b1, hb1, he2⟩ := bind_ok_inv he
+  have e1 := Builder.writeBits_ok hb1
+  have e2 := Builder.writeBits_ok he2
+  refine ⟨Builder.intBitsGo wc 32 ++ bytesToBits addr, [], by rw [e2, e1, Builder.app_app]; simp, RTs.toRT ?_ _⟩
+  intro s _
+  have h1 := Slice.readInt_prepend s 32 wc (bytesToBits addr) [] (by omega) (by omega) (by omega) (by omega)
+  have h2 := Slice.readBytes_prepend s addr [] []
+  simp only [List.append_nil, hlen] at h2
+  have hw : (if (wc % 256 + 256) % 256 ≥ 128 then (wc % 256 + 256) % 256 - 256 else (wc % 256 + 256) % 256) = wc := by
+    split <;> omega
+  simp only [Prim.dec, h1, h2, bind, Outcome.bind, pure, hw]
+  rfl
+
 theorem primOK_of_proved : ∀ p : Prim, p.proved = true → PrimOK p
   | .unary, _ => primOK_unary
   | .any, _ => primOK_any
@@ -940,6 +961,7 @@ theorem primOK_of_proved : ∀ p : Prim, p.proved = true → PrimOK p
   | .text, _ => primOK_text
   | .vmCellSlice, _ => primOK_vmCellSlice
   | .payloadV1toV4, _ => primOK_payloadV1toV4
+  | .addrWc, _ => primOK_addrWc
   | .w5Actions, h => by simp [Prim.proved] at h
 
 
